@@ -1,0 +1,139 @@
+//go:build verif
+
+package signing
+
+import (
+	"fmt"
+	"math/big"
+
+	"github.com/bnb-chain/tss-lib/ecdsa/keygen"
+	"github.com/ipfs/go-log/v2"
+
+	"github.com/keep-network/keep-core/pkg/protocol/group"
+	"github.com/keep-network/keep-core/pkg/protocol/state"
+	"github.com/keep-network/keep-core/pkg/tecdsa"
+)
+
+// Verification hooks for property C12 (thin wrappers, no behaviour of their
+// own): build one of the message-receiving states around a member created with
+// newMember, build protocol messages.
+
+// VerifC12Sites is the number of shouldAcceptMessage call sites in states.go.
+const VerifC12Sites = 11
+
+// VerifC12Probe holds a receiving state, the message history it writes to and
+// the group of its member.
+type VerifC12Probe struct {
+	State state.AsyncState
+	Base  *state.BaseAsyncState
+	Group *group.Group
+}
+
+// VerifC12NewProbe builds the state that contains the given call site:
+// 0 ephemeralKeyPairGenerationState, 1 symmetricKeyGenerationState,
+// 2..10 tssRoundOneState..tssRoundNineState. The TSS party is not started.
+func VerifC12NewProbe(
+	site int,
+	logger log.StandardLogger,
+	memberIndex group.MemberIndex,
+	groupSize int,
+	dishonestThreshold int,
+	membershipValidator *group.MembershipValidator,
+	sessionID string,
+) (*VerifC12Probe, error) {
+	m := newMember(
+		logger,
+		memberIndex,
+		groupSize,
+		dishonestThreshold,
+		membershipValidator,
+		sessionID,
+		big.NewInt(1),
+		tecdsa.NewPrivateKeyShare(keygen.LocalPartySaveData{}),
+	)
+	base := state.NewBaseAsyncState()
+	ephemeral := m.initializeEphemeralKeysGeneration()
+	symmetric := ephemeral.initializeSymmetricKeyGeneration()
+	one := &tssRoundOneMember{symmetricKeyGeneratingMember: symmetric}
+	two := one.initializeTssRoundTwo()
+	three := two.initializeTssRoundThree()
+	four := three.initializeTssRoundFour()
+	five := four.initializeTssRoundFive()
+	six := five.initializeTssRoundSix()
+	seven := six.initializeTssRoundSeven()
+	eight := seven.initializeTssRoundEight()
+	nine := eight.initializeTssRoundNine()
+
+	var st state.AsyncState
+	switch site {
+	case 0:
+		st = &ephemeralKeyPairGenerationState{BaseAsyncState: base, member: ephemeral}
+	case 1:
+		st = &symmetricKeyGenerationState{BaseAsyncState: base, member: symmetric}
+	case 2:
+		st = &tssRoundOneState{BaseAsyncState: base, member: one}
+	case 3:
+		st = &tssRoundTwoState{BaseAsyncState: base, member: two}
+	case 4:
+		st = &tssRoundThreeState{BaseAsyncState: base, member: three}
+	case 5:
+		st = &tssRoundFourState{BaseAsyncState: base, member: four}
+	case 6:
+		st = &tssRoundFiveState{BaseAsyncState: base, member: five}
+	case 7:
+		st = &tssRoundSixState{BaseAsyncState: base, member: six}
+	case 8:
+		st = &tssRoundSevenState{BaseAsyncState: base, member: seven}
+	case 9:
+		st = &tssRoundEightState{BaseAsyncState: base, member: eight}
+	case 10:
+		st = &tssRoundNineState{BaseAsyncState: base, member: nine}
+	default:
+		return nil, fmt.Errorf("unknown site %d", site)
+	}
+	return &VerifC12Probe{State: st, Base: base, Group: m.group}, nil
+}
+
+// VerifC12MessageKinds is the number of kinds VerifC12NewMessage knows.
+const VerifC12MessageKinds = 10
+
+// VerifC12NewMessage builds a signing protocol message: 0 ephemeral public
+// key, 1..9 TSS rounds.
+func VerifC12NewMessage(
+	kind int,
+	senderID group.MemberIndex,
+	sessionID string,
+) interface{} {
+	switch kind {
+	case 0:
+		return &ephemeralPublicKeyMessage{senderID: senderID, sessionID: sessionID}
+	case 1:
+		return &tssRoundOneMessage{senderID: senderID, sessionID: sessionID}
+	case 2:
+		return &tssRoundTwoMessage{senderID: senderID, sessionID: sessionID}
+	case 3:
+		return &tssRoundThreeMessage{senderID: senderID, sessionID: sessionID}
+	case 4:
+		return &tssRoundFourMessage{senderID: senderID, sessionID: sessionID}
+	case 5:
+		return &tssRoundFiveMessage{senderID: senderID, sessionID: sessionID}
+	case 6:
+		return &tssRoundSixMessage{senderID: senderID, sessionID: sessionID}
+	case 7:
+		return &tssRoundSevenMessage{senderID: senderID, sessionID: sessionID}
+	case 8:
+		return &tssRoundEightMessage{senderID: senderID, sessionID: sessionID}
+	case 9:
+		return &tssRoundNineMessage{senderID: senderID, sessionID: sessionID}
+	}
+	return nil
+}
+
+// VerifC12MessageType returns the Type() of a message built by
+// VerifC12NewMessage.
+func VerifC12MessageType(payload interface{}) string {
+	if m, ok := payload.(message); ok {
+		return m.Type()
+	}
+	return ""
+}
